@@ -267,6 +267,11 @@ func VH_C14_v2_views() {
 	if e1 != nil || e2 != nil || e3 != nil {
 		return
 	}
+	if vrt.Bool("envFirst") {
+		// the views must agree whatever was queried first on the environmental object
+		_ = em.Score()
+		_ = em.Severity()
+	}
 	vrt.Assert(em.BaseMetrics() == em.Temporal.Base && em.TemporalMetrics() == em.Temporal && tm.BaseMetrics() == tm.Base, "accessors return the embedded objects")
 	eb, _ := em.BaseMetrics().Encode()
 	tb, _ := tm.BaseMetrics().Encode()
@@ -278,4 +283,27 @@ func VH_C14_v2_views() {
 	tt, _ := tm.Encode()
 	vrt.Assert(em.TemporalMetrics().Score() == tm.Score() && em.TemporalMetrics().Severity() == tm.Severity(), "temporal score and severity through the environmental object equal the temporal decoder's")
 	vrt.Assert(et == tt && tt == tvec, "temporal encoding agrees")
+}
+
+
+// C13 (v2) through an environmental object, whatever was queried first: temporal never exceeds base.
+func VH_C13_v2_env_object() {
+	vec, _, _, _, _, _, _ := pickBase()
+	tsuf, e, rl, rc := pickTemporal()
+	esuf, _, _, _, _, _ := pickEnv()
+	em, err := NewEnvironmental().Decode(vec + tsuf + esuf)
+	vrt.Assert(err == nil, "accepted")
+	if err != nil {
+		return
+	}
+	if vrt.Bool("envFirst") {
+		_ = em.Score()
+		_ = em.Severity()
+	}
+	t := em.TemporalMetrics().Score()
+	b := em.BaseMetrics().Score()
+	vrt.Assert(t <= b, "temporal never exceeds base (through the environmental object, in either query order)")
+	if e == "ND" && rl == "ND" && rc == "ND" {
+		vrt.Assert(t == b, "all temporal metrics Not Defined: temporal equals base")
+	}
 }
